@@ -304,7 +304,81 @@ def c07():
                 ["the independent BPB parse in the harness", "absence of panics is established for the enumerated inputs only"])
 
 
-CHECKS = {"C06": c06, "C07": c07, "C09": c09, "C14": c14, "C01": c01, "C02": c02, "C03": c03, "C04": c04, "C05": c05, "C12": c12, "C13": c13}
+def fold_table():
+    core.build("ref")
+    with open(os.path.join(core.WORK, "fold.json")) as f:
+        return json.load(f)
+
+
+def c15():
+    t0 = time.time()
+    wd = workdir("C15")
+    rng = rng_for("C15", 0)
+    batches = gen.name_sets(rng, fold_table(), quick=(core.tier() == "quick"))
+    cfg = dict(gen.K("K2"), obs={"raw": True, "rv": True, "sv": True})
+    progs = [gen.name_program("names-%d" % i, cfg, names, lookups) for i, (names, lookups) in enumerate(batches)]
+    res = [("names", core.campaign("names", progs, wd, n_shards=14))]
+    core.finish("C15", LEVEL, res, None, t0,
+                "names: every ASCII character and BMP code points (quick: range boundaries + stride 97; thorough: all 63 488) in first, middle and last "
+                "position, astral samples, lengths 0..300 with 1-4 byte characters, every character whose upper-case expansion differs paired with its folded "
+                "partner and near misses, alias lookups, renames to invalid names; TLC (Names!NameErrors, fold keys from the std table) judges every result, "
+                "the stored name and every lookup",
+                ASSUME_TRACE + ["the upper-case table emitted from Rust std is the fold the `unicode` feature documents"])
+
+
+def c16():
+    t0 = time.time()
+    wd = workdir("C16")
+    rng = rng_for("C16", 0)
+    progs = []
+    n = 0
+    for kname in ["K3", "K5"]:
+        cfg = gen.K(kname)
+        pops = [10, 30, 70] if core.tier() == "quick" else [10, 40, 120, 300, 500]
+        for pop in pops:
+            sets = [
+                ["longfilename-%d.txt" % i for i in range(pop)],
+                ["Long File Name %d.data" % i for i in range(pop)] + ["LONGFI~%d.DAT" % i for i in range(1, 6)],
+                gen.colliding_names(rng, min(pop, 40)),
+                ["%s.txt" % ("x" * k) for k in range(1, min(pop, 200))],
+                ["\u00e9t\u00e9-%d.doc" % i for i in range(pop // 2)] + ["a b.c d-%d" % i for i in range(pop // 2)],
+                ["FOO~1.TXT", "foo~1.txt", "foooooooo.txt", "foooooooo1.txt", "FOOOOO~1.TXT", "fo0123~1.txt", ".hidden", "..x", "a+b,c;d=e[f].g h"],
+            ]
+            for names in sets:
+                n += 1
+                progs.append(gen.alias_program(rng, "alias-%s-%d" % (kname, n), cfg, names))
+    res = [("alias", core.campaign("alias", progs, wd, n_shards=14))]
+    core.finish("C16", LEVEL, res, None, t0,
+                "directories populated with names colliding on the 6-character alias form, on the 2-character+checksum form (names searched for equal 16-bit "
+                "name checksum), user names that look like aliases, non-ASCII and dotted/spaced names, with removals in between; for every created entry TLC "
+                "checks the alias is legal, unique in its directory and that every long-name slot carries its checksum",
+                ASSUME_TRACE)
+
+
+def c18():
+    t0 = time.time()
+    wd = workdir("C18")
+    rng = rng_for("C18", 0)
+    vals = gen.stamp_values(rng, quick=(core.tier() == "quick"))
+    rng.shuffle(vals)
+    progs = []
+    per = 12
+    triples = [(vals[i], vals[(i * 7 + 3) % len(vals)], vals[(i * 13 + 5) % len(vals)]) for i in range(len(vals))]
+    for i in range(0, len(triples), per):
+        progs.append(gen.stamp_program(rng, "stamp-%d" % (i // per), gen.K("K1b") if (i // per) % 2 else gen.K("K5"), triples[i:i + per]))
+    for i in range(scale(30, 300)):
+        kname = rng.choice(["K1b", "K2", "K5"])
+        progs.append(gen.clock_program(rng, "clock-%d" % i, gen.K(kname), CS[kname], 30, atime=(i % 2 == 0)))
+    res = [("stamps", core.campaign("stamps", progs, wd, n_shards=14))]
+    core.finish("C18", LEVEL, res, None, t0,
+                "explicit stamps: every year, every (month, day), every (hour, second), every minute and a millisecond sweep against boundary values of the "
+                "other fields (thorough: every (y,m,d)), set on a file, flushed/closed, read back through a fresh mount and from the raw entry; plus random "
+                "histories under the harness clock (creation, write, read with access-date updating on/off, rename, truncate, other entries); TLC applies "
+                "Stamps!Trunc10ms/Trunc2s/DateOf and the stamping rules",
+                ASSUME_TRACE)
+
+
+CHECKS = {"C15": c15, "C16": c16, "C18": c18, "C06": c06, "C07": c07, "C09": c09, "C14": c14, "C01": c01, "C02": c02, "C03": c03, "C04": c04, "C05": c05, "C12": c12, "C13": c13}
 
 
 def run(prop):
